@@ -217,10 +217,43 @@ def F20():
         return True, f"hash(IncrementalCell) raises TypeError: {ex}"
 
 
-ALL = {k: v for k, v in globals().items() if k.startswith("F") and k[1:].isdigit()}
+def F21():
+    from bermuda.utils import accident_quarter_to_policy_year
+    from bermuda.utils.backfill import backfill
+
+    t = Triangle([mk(D(2020, 1, 1), D(2020, 3, 31), e, {"paid_loss": 10.0}, cls=CumulativeCell)
+                  for e in (D(2020, 9, 30), D(2020, 12, 31))])
+    py = accident_quarter_to_policy_year(t)
+    before = [dict(c.values) for c in py]
+    try:
+        backfill(py)
+    except Exception:
+        pass
+    after = [dict(c.values) for c in py]
+    return before != after, f"backfill changed its argument: {before[0]} -> {after[0]}"
+
+
+def F22():
+    out = Triangle([]).aggregate(period_resolution=(12, "month"))
+    return not isinstance(out, Triangle), f"aggregate of the empty triangle returned {out!r}"
+
+
+def G5():
+    cs = [mk(D(2003, 4, 1), D(2003, 6, 30), D(2003, 6, 30), {"paid_loss": 1.0}, cls=CumulativeCell),
+          mk(D(2003, 7, 1), D(2003, 9, 30), D(2003, 9, 30), {"paid_loss": 2.0}, cls=CumulativeCell)]
+    t = Triangle(cs)
+    try:
+        back = Triangle.from_array_data_frame(t.to_array_data_frame("paid_loss"), "paid_loss")
+        got = [(c.period_start, c.period_end) for c in back]
+        return got != [(c.period_start, c.period_end) for c in t], f"array frame round trip periods: {got}"
+    except Exception as ex:
+        return True, f"array frame round trip raised {type(ex).__name__}: {ex}"
+
+
+ALL = {k: v for k, v in globals().items() if k[:1] in "FG" and k[1:].isdigit() and callable(v)}
 
 if __name__ == "__main__":
-    names = sys.argv[1:] or sorted(ALL, key=lambda s: int(s[1:]))
+    names = sys.argv[1:] or sorted(ALL, key=lambda s: (s[0], int(s[1:])))
     rc = 0
     for n in names:
         try:
